@@ -346,24 +346,13 @@ def classify(case: Case, opts: dict) -> str:
 
 
 def classify_default(case: Case) -> str:
-    d = case.default
-    if d is NO_DEFAULT:
+    """class of a default that is an entry of the enum w.r.t. the known defects of the default → member step
+    (computed from the input and the escape table only, see c09_defaults.default_trigger)"""
+    from . import c09_defaults
+
+    if case.default is NO_DEFAULT:
         return "none"
-    if not d:
-        return "falsy_default"
-    if py_equal_groups([v for v in case.values if v is not None]):
-        return "py_equal_values"
-    if None in case.values and case.ty == "string":
-        return "nullable_wrapper"
-    strs = [str(v) for v in case.values if v is not None]
-    table = str.maketrans(enum_table())
-    if isinstance(d, str) and (d.strip("'\"") != d or d.translate(table) != d):
-        return "quote_or_escape"
-    if any(isinstance(v, str) and (v.strip("'\"") != v) for v in case.values):
-        return "quote_or_escape"
-    if len(set(strs)) != len(strs):
-        return "str_equal_other_type"
-    return "none"
+    return c09_defaults.default_trigger(case.ty, case.values, case.default)
 
 
 def e2e_case(ck: Check, camp, case: Case, cfg: Cfg, model: str, opts: dict) -> None:
@@ -407,7 +396,14 @@ def e2e_case(ck: Check, camp, case: Case, cfg: Cfg, model: str, opts: dict) -> N
     except BaseException as e:  # noqa: BLE001
         if isinstance(e, (KeyboardInterrupt, SystemExit)):
             raise
-        ck.fail({**base, "mechanism": "import_error"}, inp, f"importing the emitted module raised {type(e).__name__}: {str(e)[:200]}")
+        cl = {**base, "mechanism": "import_error"}
+        if isinstance(e, TypeError) and "already defined" in str(e) and base["trigger"] == "none":
+            # the Enum class body binds one member name twice: which known mechanism produced the two equal names?
+            if c07.nfkc_unstable(res.code, []):
+                cl["trigger"] = "nfkc_member_name"  # C07's D21: distinct strings, one identifier after Python's NFKC normalisation
+            elif model == "pydantic_v2.BaseModel" and cfg.snake and cfg.cap:
+                cl["trigger"] = "v2_snake_after_capitalise"
+        ck.fail(cl, inp, f"importing the emitted module raised {type(e).__name__}: {str(e)[:200]}")
         return
     try:
         camp.distinct.add(json.dumps(inp, sort_keys=True, default=str))
@@ -571,7 +567,12 @@ def known_findings(ck: Check) -> None:
         probe = Check(ck.prop, ck.tier)
         probe.findings = []
         camp = probe.campaign("witness")
-        e2e_case(probe, camp, case_of(w), cfg_of(w), w["model"], w.get("opts", {}))
+        if "dkind" in w:
+            from . import c09_defaults
+
+            c09_defaults.check_dcase(probe, camp, w)
+        else:
+            e2e_case(probe, camp, case_of(w), cfg_of(w), w["model"], w.get("opts", {}))
         if probe.failures:
             ck.known(f["id"], f["what"])
 
@@ -614,11 +615,18 @@ def run(ck: Check) -> None:
         "enum entries are scalar JSON values (lists/objects as entries are outside the model); floats are opaque repr tokens supplied by the harness",
         "repr(value) in find_member is a parameter of the model (supplied by the harness in the correspondence, universally quantified with one stated hypothesis in default_member_found_partial)",
         "JSON has one number type: with --use-subclass-enum and type number the oracle accepts 1 rendered as 1.0",
+        "__set_default_enum_member over a run: data_type.alias of each field is a parameter of the step (what __change_from_import left; C12/C02), one enum-typed data type per field; Member objects are heap cells (address = allocation order)",
+        "modular e2e family: modules that define an enum import each other in one direction only (defaults are evaluated at import time, mutually dependent modules cannot both be imported whatever the generator writes); module and class names come from a safe vocabulary (C12/C06/C07 own the naming)",
     ]
     campaign_parse(ck, 900 if quick else 9000)
     campaign_literal(ck, 300 if quick else 3000)
     campaign_e2e(ck, 700 if quick else 7000)
     campaign_observation(ck)
+    from . import c09_defaults
+
+    c09_defaults.campaign_steps(ck, 400 if quick else 4000)
+    c09_defaults.campaign_defaults(ck, 260 if quick else 2600)
+    ck.search_hooks.append(c09_defaults.search_defaults)
     ck.search_hooks.append(search_enums)
     known_findings(ck)
 
@@ -627,7 +635,11 @@ def replay(ck: Check, path: str) -> int:
     data = json.loads(open(path).read())
     inp = data.get("input") or {}
     camp = ck.campaign("replay")
-    if "enum" in inp and "model" in inp:
+    if "dkind" in inp:
+        from . import c09_defaults
+
+        c09_defaults.check_dcase(ck, camp, inp)
+    elif "enum" in inp and "model" in inp:
         e2e_case(ck, camp, case_of(inp), cfg_of(inp), inp["model"], inp.get("opts", {}))
     for f in ck.failures:
         print("REPLAY-FAILS:", json.dumps(f.classification), f.observed[:300])
